@@ -7,6 +7,7 @@ import (
 	"encoding/hex"
 	"fmt"
 	"math/rand"
+	goruntime "runtime"
 	"sync"
 
 	"github.com/cosmos/cosmos-proto/runtime"
@@ -216,7 +217,9 @@ func engineRT(rep *Report) {
 	// ---- EncodeVarint from several goroutines, each on its own buffer (calls on disjoint data are independent)
 	if si == 0 {
 		const G = 8
-		per := perType(100000, 2000000)
+		per := perType(400000, 4000000)
+		prevProcs := goruntime.GOMAXPROCS(G) // really parallel for this phase, whatever the driver allotted
+		defer goruntime.GOMAXPROCS(prevProcs)
 		fails := make([]string, G)
 		var wg sync.WaitGroup
 		for gi := 0; gi < G; gi++ {
